@@ -59,6 +59,7 @@ func zzH09_callargs() {
 			args = append(args, &syntax.Literal{Token: syntax.INT, TokenPos: starts[i], Raw: "1", Value: int64(1)})
 		case zzAN:
 			names[i] = zzString("name"+strconv.Itoa(i), 1)
+			zzAssume(zzAnd(names[i][0] >= 'a', names[i][0] <= 'z')) // an identifier
 			args = append(args, &syntax.BinaryExpr{X: &syntax.Ident{NamePos: starts[i], Name: names[i]}, OpPos: newPos(), Op: syntax.EQ, Y: lit()})
 		case zzAS:
 			args = append(args, &syntax.UnaryExpr{OpPos: starts[i], Op: syntax.STAR, X: lit()})
